@@ -29,7 +29,11 @@ class GDom:
     def term(self, v):
         if is_term(v):
             return v
-        return z3.BitVecVal(v, self.width) if self.sort == "bv" else z3.IntVal(v)
+        if self.sort == "bv":
+            return z3.BitVecVal(v, self.width)
+        if self.sort == "real":
+            return z3.RealVal(v)
+        return z3.IntVal(v)
 
     def zero(self, tid=None):
         return GVal({}, self)
